@@ -1,5 +1,27 @@
-from .arena_common import main as _main
+"""C03: totality monitors of the arena campaign; thorough tier adds an AddressSanitizer and a Miri pass over
+generated parsers (secondary net: the emitted code is safe Rust)."""
+from ..report import Check
+from . import arena_common
 
 
 def main(tier):
-    _main("C03", tier)
+    def extra(chk: Check):
+        if tier != "thorough":
+            return
+        from .. import sanitize
+        res = sanitize.arena_passes()
+        chk.note("sanitizers", res)
+        a = res.get("asan", {})
+        if a.get("error"):
+            chk.note("asan_not_run", a["error"])
+        else:
+            if a.get("n_reports"):
+                chk.violation("asan:report", "AddressSanitizer report while running generated parsers: " + (a["reports"] or ["?"])[0][:300], a)
+            if a.get("incidents"):
+                chk.violation("asan:process-died", "the AddressSanitizer build of an arena died while parsing", a)
+        m = res.get("miri", {})
+        if m.get("reports"):
+            chk.violation("miri:report", "Miri reports while interpreting generated parsers: " + m["reports"][0][:300], m)
+        elif m.get("exit") not in (0, None):
+            chk.note("miri_inconclusive", m.get("stderr_tail", "")[-300:])
+    arena_common.main("C03", tier, extra=extra)
